@@ -1,10 +1,9 @@
 CONSTANTS
-  MaxOps = 8
+  MaxOps = 3
   MaxDepthC = 0
-  Pattern = "any"
+  Pattern = "call-flag-edit"
   Dump = TRUE
 INIT Init
 NEXT Next
 CONSTRAINT Bound
-INVARIANT Inv_C02_NoStale
 CHECK_DEADLOCK FALSE
